@@ -196,7 +196,7 @@ def execute(jobs):
         if os.path.exists(j["trace"]):
             os.unlink(j["trace"])
         r = run.run_tool("interrogate", j["args"], cwd=j["cwd"], trace=j["trace"], timeout=180,
-                         env={"SOURCE_DATE_EPOCH": "1700000000"}, outputs=[j["out"]])
+                         env={"SOURCE_DATE_EPOCH": "1700000000", "INTERROGATE_VERIF_TRACE_IDBBUILD": "1"}, outputs=[j["out"]])
         j["rc"], j["timed_out"], j["stderr"] = r.rc, r.timed_out, r.stderr[-600:]
         j["events"] = read_events(j["trace"])
         j["written"] = bool(r.outputs.get(j["out"])) and r.rc == 0
